@@ -20,7 +20,8 @@ import (
 )
 
 type UOp struct {
-	Kind   string `json:"kind"` // send | reply | stray | expire
+	Kind   string `json:"kind"` // send | reply | stray | expire | update
+	List   []int  `json:"list,omitempty"` // update: the new key list
 	Client int    `json:"client"`
 	Key    int    `json:"key"`
 	Target int    `json:"target"`
@@ -69,21 +70,31 @@ func genUCase(o uOpts) func(t *rapid.T) UCase {
 			c.TimeoutMs = rapid.SampledFrom([]int{120, 200, 350}).Draw(t, "timeout")
 		}
 		nops := rapid.IntRange(1, o.maxOps).Draw(t, "nops")
-		kinds := []string{"send", "send", "send", "send", "reply", "reply", "stray"}
+		kinds := []string{"send", "send", "send", "send", "send", "send", "send", "send", "reply", "reply", "reply", "reply", "stray", "stray", "update"}
 		if o.expiry {
-			kinds = append(kinds, "expire")
+			kinds = append(kinds, "expire", "expire", "update", "update")
 		}
+		cur := c.List               // the list in force at this point of the history
+		lastKey := map[int]int{}    // client -> key of its latest well-formed datagram
 		for i := 0; i < nops; i++ {
 			op := UOp{Kind: rapid.SampledFrom(kinds).Draw(t, "kind")}
 			op.Client = rapid.IntRange(0, len(c.ClientIPs)-1).Draw(t, "client")
 			op.Target = rapid.IntRange(0, len(c.Targets)-1).Draw(t, "target")
 			op.Seed = rapid.Int64Range(1, 1<<40).Draw(t, "seed")
 			op.N = rapid.OneOf(rapid.SampledFrom(sizes), rapid.IntRange(0, 3000)).Draw(t, "n")
+			if op.Kind != "send" && o.sizes == nil && rapid.IntRange(0, 3).Draw(t, "huge") == 0 {
+				// replies at and beyond what one relayed datagram can carry (64 KiB buffer, salt, address slot, tag)
+				op.N = rapid.OneOf(rapid.IntRange(65440, 65507), rapid.SampledFrom([]int{65460, 65469, 65470, 65477, 65478, 65485, 65486, 65501, 65507})).Draw(t, "hugeN")
+			}
 			if op.Kind == "send" {
 				// bias towards keys in the list and towards the client's previous key
-				if rapid.IntRange(0, 3).Draw(t, "inlist") > 0 {
-					op.Key = c.List[rapid.IntRange(0, len(c.List)-1).Draw(t, "keyInList")]
-				} else {
+				prev, hasPrev := lastKey[op.Client]
+				switch sel := rapid.IntRange(0, 7).Draw(t, "inlist"); {
+				case sel <= 1 && hasPrev:
+					op.Key = prev // also after the key has left the list
+				case sel <= 5:
+					op.Key = cur[rapid.IntRange(0, len(cur)-1).Draw(t, "keyInList")]
+				default:
 					op.Key = rapid.IntRange(0, n-1).Draw(t, "key")
 				}
 				op.Mut = rapid.SampledFrom([]string{"none", "none", "none", "none", "none", "trunc", "flip", "random", "badaddr", "shortaddr", "port0"}).Draw(t, "mut")
@@ -96,6 +107,42 @@ func genUCase(o uOpts) func(t *rapid.T) UCase {
 					op.MutArg = rapid.SampledFrom([]int{0, 1, 15, 16, 31, 32, 33, 48, 49, 55, 200, 1500}).Draw(t, "randLen")
 				case "badaddr":
 					op.MutArg = rapid.SampledFrom([]int{0, 2, 5, 6, 255}).Draw(t, "atyp")
+				}
+			}
+			if op.Kind == "send" && op.Mut == "none" {
+				lastKey[op.Client] = op.Key
+			}
+			if op.Kind == "update" {
+				// a new list; half of the time one that drops a key some client has been using
+				op.List = genIdxList(t, n, "newlist", 1, n)
+				dropped := false
+				if len(lastKey) > 0 && rapid.IntRange(0, 3).Draw(t, "dropUsed") > 0 {
+					if _, ok := lastKey[op.Client]; !ok {
+						for cl := range c.ClientIPs { // a client that has sent something
+							if _, ok := lastKey[cl]; ok {
+								op.Client = cl
+								break
+							}
+						}
+					}
+					drop := lastKey[op.Client]
+					dropped = true
+					var l []int
+					for _, k := range op.List {
+						if k != drop {
+							l = append(l, k)
+						}
+					}
+					if len(l) > 0 {
+						op.List = l
+					}
+				}
+				cur = op.List
+				if k, used := lastKey[op.Client]; used && dropped && o.expiry {
+					// the former client comes back with its old key once its association has gone
+					c.Ops = append(c.Ops, op, UOp{Kind: "expire"},
+						UOp{Kind: "send", Client: op.Client, Key: k, Target: op.Target, N: op.N % 1400, Seed: op.Seed + 11, Mut: "none"})
+					continue
 				}
 			}
 			c.Ops = append(c.Ops, op)
@@ -123,6 +170,7 @@ type uReplyRec struct {
 	PayloadLen int
 	WireLen    int // as received by the client
 	Gen        int
+	Lost       bool // a reply too large to be relayed in one datagram, and not relayed
 }
 
 type uAssoc struct {
@@ -150,7 +198,8 @@ type uWorld struct {
 	fence    *kit.UDPPeer
 	fenceTgt *kit.UDPPeer // the fence client's own (always allowed) target
 	fenceKey kit.KeySpec
-	model    []kit.KeySpec
+	model    []kit.KeySpec // the key list in force
+	ciphers  service.CipherList
 	assoc    map[int]*uAssoc // live association per client index
 	all      []*uAssoc
 	salts    map[string]bool
@@ -158,6 +207,7 @@ type uWorld struct {
 	// options
 	checkForward bool // C03 oracles
 	checkNAT     bool // C04 oracles
+	updates      int
 	aborted      bool // an expiry raced with an operation: the rest of the case is not judged
 }
 
@@ -219,7 +269,8 @@ func newUWorld(c UCase, info *kit.Info, validator func(net.IP) error) (*uWorld, 
 	}
 	w.fenceKey = kit.KeySpec{ID: "fence", Cipher: kit.Chacha, Secret: "fence-secret"}
 	listed := append(append([]kit.KeySpec(nil), w.model...), w.fenceKey)
-	ph := service.NewPacketHandler(time.Duration(c.TimeoutMs)*time.Millisecond, kit.NewCipherList(listed), w.met, nil)
+	w.ciphers = kit.NewCipherList(listed)
+	ph := service.NewPacketHandler(time.Duration(c.TimeoutMs)*time.Millisecond, w.ciphers, w.met, nil)
 	if validator != nil {
 		ph.SetTargetIPValidator(validator)
 	}
@@ -447,6 +498,15 @@ func (w *uWorld) doSend(i int, op UOp) *kit.Finding {
 		rec.OnAssoc, rec.Status = true, "OK"
 	}
 	w.info.Class("send:"+op.Mut, fmt.Sprintf("send-forward:%v", expectForward), fmt.Sprintf("send-known-client:%v", a != nil))
+	if a == nil && !opens && op.Mut == "none" && w.updates > 0 {
+		for _, o := range w.all {
+			if o.Client == op.Client && o.Key.ID == ks.ID {
+				w.info.Class("revoked-key-from-former-client")
+				w.info.NonTrivial = true
+				break
+			}
+		}
+	}
 	if opens && addrOK && !allowedDst {
 		w.info.Class("send-to-refused-destination")
 		w.info.NonTrivial = true
@@ -630,10 +690,24 @@ func (w *uWorld) doReply(i int, op UOp, from *kit.UDPPeer, kind string) *kit.Fin
 	to, _ := net.ResolveUDPAddr("udp", src)
 	n := op.N
 	body := kit.DetBytes(op.Seed+3, n)
+	cl := w.clients[op.Client]
+	// Must this reply fit? The relay buffer is 64 KiB and holds salt, a 19-byte address slot, the body and the
+	// tag; the relayed packet must also fit one datagram of the client's address family.
+	saltLen := a.Key.Key().SaltSize()
+	srcHdr := 7
+	if from.Addr.IP.To4() == nil {
+		srcHdr = 19
+	}
+	limit := 65507
+	if cl.Addr.IP.To4() == nil {
+		limit = 65527
+	}
+	if n > 65536-saltLen-19-16 || saltLen+srcHdr+n+16 > limit {
+		return w.doHugeReply(i, op, a, from, kind, body, to)
+	}
 	if err := from.Send(body, to); err != nil {
 		return nil
 	}
-	cl := w.clients[op.Client]
 	d, got := cl.Pop(uBound)
 	if !got {
 		if a.Rec != nil && a.Rec.Removed() > 0 {
@@ -646,6 +720,44 @@ func (w *uWorld) doReply(i int, op UOp, from *kit.UDPPeer, kind string) *kit.Fin
 			return kit.Violation("udp:reply-lost", "op %d: %s datagram of %d bytes sent to %s (client %d's outbound address) was not relayed to the client within %v (2 attempts)", i, kind, n, src, op.Client, uBound)
 		}
 	}
+	return w.judgeReply(i, op, a, from, kind, body, d)
+}
+
+// doHugeReply: a reply that cannot (or need not) be relayed in one datagram. Nothing obliges the proxy to
+// deliver it; if it does, the client must get all of it, and either way it is accounted for once.
+func (w *uWorld) doHugeReply(i int, op UOp, a *uAssoc, from *kit.UDPPeer, kind string, body []byte, to *net.UDPAddr) *kit.Finding {
+	if a.Rec == nil {
+		return nil
+	}
+	count := func() (n int) {
+		for _, e := range a.Rec.Events() {
+			if e.Kind == "fromTarget" {
+				n++
+			}
+		}
+		return
+	}
+	before := count()
+	if err := from.Send(body, to); err != nil {
+		return nil
+	}
+	w.info.Class("reply:oversize")
+	if !kit.WaitFor(uBound, func() bool { return count() > before }) {
+		w.info.Inconclusive = "an oversize reply never reached the proxy"
+		w.aborted = true
+		return nil
+	}
+	d, got := w.clients[op.Client].Pop(150 * time.Millisecond)
+	if !got {
+		a.Replies = append(a.Replies, uReplyRec{Op: i, Client: op.Client, PayloadLen: len(body), Gen: a.Gen, Lost: true})
+		return nil
+	}
+	w.info.Class("reply:oversize-delivered")
+	return w.judgeReply(i, op, a, from, kind, body, d)
+}
+
+func (w *uWorld) judgeReply(i int, op UOp, a *uAssoc, from *kit.UDPPeer, kind string, body []byte, d kit.Datagram) *kit.Finding {
+	n := len(body)
 	salt, plain, err := kit.UnpackUDP(a.Key.Key(), d.Data)
 	if err != nil {
 		return kit.Violation("udp:reply-wrong-key", "op %d: reply to client %d does not decrypt under the key that opened its association (%s)", i, op.Client, a.Key.ID)
@@ -742,6 +854,17 @@ func (w *uWorld) run() *kit.Finding {
 			}
 		case "expire":
 			f = w.doExpire(i)
+		case "update":
+			// the list changes under the running packet loop; live associations keep the key that opened them
+			w.model = nil
+			for _, k := range op.List {
+				if k < len(w.c.Universe) {
+					w.model = append(w.model, w.c.Universe[k])
+				}
+			}
+			w.ciphers.Update(kit.CipherEntries(append(append([]kit.KeySpec(nil), w.model...), w.fenceKey)))
+			w.updates++
+			w.info.Class("update")
 		}
 		if f != nil {
 			return f
